@@ -182,6 +182,11 @@ func (p *Parser) ParseStatements(ctx context.Context) ([]ast.Statement, error) {
 		}
 	}
 
+	// A failing reader is not a legitimate end of input: report its error.
+	if err := p.lexer.Err(); err != nil {
+		return statements, fmt.Errorf("read error: %w", err)
+	}
+
 	if len(p.errors) > 0 {
 		return statements, fmt.Errorf("parse errors: %v", p.errors)
 	}
